@@ -71,6 +71,11 @@ def part_a():
     ok &= mc_expect("Launch.tla", "MC_Launch_f2.cfg", "launch_F2_detached_failure_not_reaped", False)
     ok &= mc_expect("Launch.tla", "MC_Launch_c07h.cfg", "launch_child_errno_read_as_own_EINTR", False)
     ok &= mc_expect("Launch.tla", "MC_Launch.cfg", "launch_faithful", True)
+    ok &= mc_expect("PathSearch.tla", "MC_PathSearch_execvp_empty.cfg", "pathsearch_empty_entry_is_cwd", False)
+    ok &= mc_expect("PathSearch.tla", "MC_PathSearch_execvp_sh.cfg", "pathsearch_enoexec_runs_through_sh", False)
+    ok &= mc_expect("PathSearch.tla", "MC_PathSearch_firstonly.cfg", "pathsearch_room_for_first_entry_only", False)
+    ok &= mc_expect("PathSearch.tla", "MC_PathSearch_f13.cfg", "pathsearch_F13_no_attempt_no_error", False)
+    ok &= mc_expect("PathSearch.tla", "MC_PathSearch.cfg", "pathsearch_faithful", True)
     ok &= mc_expect("MCShQuote.tla", "MC_ShQuote.cfg", "shquote_F10_empty_argument", False, FixEmpty="FALSE")
     ok &= mc_expect("MCWinEnv.tla", "MC_WinEnv_pinned.cfg", "winenv_F20_nul_not_refused", False)
     return ok
